@@ -92,14 +92,14 @@ def parse_call_line(line: str) -> gen_ctx.Ctx:
                 continue
         if mode in ("T", "TO"):
             sps = specs.split(";") if specs else []
-            if not val.startswith("U:"):
+            if val[:2] not in ("U:", "L:", "S:"):
                 raise ValueError("non-tuple value for tuple hint")
             vals = val[2:].split(";") if val[2:] else []
             if len(sps) != len(vals):
                 raise ValueError("arity")
             p = gen_ctx.Param(name, [_slot(a, b) for a, b in zip(sps, vals)], True)
         else:
-            if val.startswith("U:"):
+            if val[:2] in ("U:", "L:", "S:"):
                 raise ValueError("tuple value for single hint")
             p = gen_ctx.Param(name, [_slot(specs, val)], False)
         if g[0] == "R":
